@@ -2,6 +2,7 @@ package xgen
 
 import (
 	"pgregory.net/rapid"
+	"strings"
 
 	"verif/internal/xast"
 	"verif/internal/xdoc"
@@ -16,7 +17,9 @@ type G struct {
 	ElNames []string
 	AtNames []string
 	StrLits []string
-	NumLits []string
+	// NoQuotes keeps quote characters out of the literals taken from document values (C17).
+	NoQuotes bool
+	NumLits  []string
 	// Guide is the probability (out of 10) of drawing a step among those that
 	// keep the reference node-set non-empty.
 	Guide int
@@ -38,7 +41,7 @@ type G struct {
 func NewG(t *rapid.T, d *xdoc.Doc) *G {
 	// guidance works on a small budget: when it runs out the draw is simply unguided
 	return &G{T: t, Env: &xref.Env{Doc: d, Limit: 150000}, ElNames: ElNames3, AtNames: AtNames2,
-		StrLits: []string{"1", "2", "t", "10", "x y", "", "a", "b"},
+		StrLits: []string{"1", "2", "t", "10", "x y", "", "a", "b", "it's", "q\"q"},
 		NumLits: []string{"0", "1", "2", "10", "1.5"}, Guide: 7}
 }
 
@@ -64,7 +67,14 @@ func (g *G) testsFor(axis string) []xast.NodeTest {
 	}
 	names := g.ElNames
 	if axis == "attribute" {
-		names = g.AtNames
+		// attribute names, and one name that elements carry too (documents have
+		// attributes named like their element one time in six)
+		names = append(append([]string{}, g.AtNames...), g.ElNames[0])
+		for _, n := range g.AtNames {
+			if n == g.ElNames[0] {
+				names = g.AtNames
+			}
+		}
 	}
 	for _, pf := range prefixes {
 		for _, n := range names {
@@ -304,7 +314,7 @@ func (g *G) litFor(cands xref.NodeSet, p xast.Expr, pool []string, numeric bool)
 					break
 				}
 				sv := xdoc.StringValue(n)
-				if len(sv) > 12 || seen[sv] || containsQuote(sv) {
+				if len(sv) > 12 || seen[sv] || (g.NoQuotes && containsQuote(sv)) || (strings.Contains(sv, "'") && strings.Contains(sv, "\"")) {
 					continue
 				}
 				if numeric && !xref.IsXPathNumber(sv) {
@@ -362,7 +372,7 @@ func (g *G) BoolPred(cands xref.NodeSet, depth int) xast.Expr {
 	case 3:
 		op := g.pick(eqOps, "eqop")
 		rp := g.RelPath(cands, 2, 0)
-		lit := &xast.Str{S: g.litFor(cands, rp, g.StrLits, false)}
+		lit := &xast.Str{S: g.litFor(cands, rp, g.StrLits, false), DQ: g.chance(2, "dq")}
 		if rapid.Bool().Draw(g.T, "flip") {
 			return &xast.Bin{Op: op, L: lit, R: rp}
 		}
@@ -400,7 +410,7 @@ func (g *G) BoolPred(cands xref.NodeSet, depth int) xast.Expr {
 		} else {
 			a = g.FlatPath(cands)
 		}
-		return &xast.Call{Name: fn, Args: []xast.Expr{a, &xast.Str{S: g.pick(g.StrLits, "slit")}}}
+		return &xast.Call{Name: fn, Args: []xast.Expr{a, &xast.Str{S: g.pick(g.StrLits, "slit"), DQ: g.chance(2, "dq")}}}
 	case 9:
 		return &xast.Bin{Op: g.pick(eqOps, "eqop"), L: &xast.Call{Name: "local-name"}, R: &xast.Str{S: g.pick(g.ElNames, "lnlit")}}
 	case 10:
